@@ -42,22 +42,26 @@ const (
 )
 
 type Sched struct {
-	n        int
-	cur      int
-	active   bool
-	done     [maxTasks]bool
-	batons   [maxTasks]baton
-	plan     []int
-	pos      int
-	gap      int      // yield points already passed while waiting for plan[pos]
-	mutexes  []*int32 // state words of every segment mutex in the world
-	Switches int
-	Yields   int
-	Skipped  int // yields suppressed because a segment mutex was held
-	Events   int
-	Trace    uint64 // rolling hash of (task, kind, arg) of every seam event
-	SchedSig uint64 // rolling hash of the switches actually taken
-	hold     int    // >0: yields are disabled (harness-internal calls into ice)
+	n             int
+	cur           int
+	active        bool
+	done          [maxTasks]bool
+	batons        [maxTasks]baton
+	gs            [maxTasks]uintptr // goroutine identity of each task (see foreign)
+	plan          []int
+	pos           int
+	gap           int        // yield points already passed while waiting for plan[pos]
+	mutexes       []lockWord // state words of every segment lock in the world
+	freeRun       int32      // set by the monitor of Run: scheduling abandoned, every task runs freely (see Run)
+	FreeRuns      int        // number of times a run fell back to free running
+	ForeignEvents int        // seam events reached by goroutines that are not tasks
+	Switches      int
+	Yields        int
+	Skipped       int // yields suppressed because a segment mutex was held
+	Events        int
+	Trace         uint64 // rolling hash of (task, kind, arg) of every seam event
+	SchedSig      uint64 // rolling hash of the switches actually taken
+	hold          int    // >0: yields are disabled (harness-internal calls into ice)
 }
 
 func NewSched(plan []int) *Sched {
@@ -71,8 +75,12 @@ func (s *Sched) WatchMutexes(seg interface{}) {
 
 //go:norace
 func (s *Sched) anyLocked() bool {
-	for _, w := range s.mutexes {
-		if *w&1 != 0 {
+	for i := range s.mutexes {
+		w := &s.mutexes[i]
+		if *w.state&1 != 0 {
+			return true
+		}
+		if w.readers != nil && *w.readers != 0 {
 			return true
 		}
 	}
@@ -88,6 +96,11 @@ func (s *Sched) AnyLocked() bool { return !noLockCheck && s.anyLocked() }
 // hang detector - the backstop behind it - can be exercised on its own.
 var noLockCheck = os.Getenv("ICESIM_NO_LOCKCHECK") != ""
 
+// Active reports whether a multi-task run is in progress.
+//
+//go:norace
+func (s *Sched) Active() bool { return s != nil && s.active }
+
 // Cur returns the id of the running task (0 outside Run).
 //
 //go:norace
@@ -98,12 +111,33 @@ func (s *Sched) Cur() int {
 	return s.cur
 }
 
+// foreign reports whether the caller is not the goroutine of the running task:
+// a goroutine the code under test started itself (say, to prefetch in
+// parallel). Such goroutines reach the seams like anyone else but are no
+// business of the scheduler: they neither yield nor enter the trace.
+//
+//go:norace
+func (s *Sched) foreign() bool {
+	if !s.active {
+		return false
+	}
+	c := s.cur
+	return c >= 0 && c < maxTasks && s.gs[c] != 0 && s.gs[c] != getg()
+}
+
 //go:norace
 func (s *Sched) note(kind int, arg uint64) {
 	if s == nil {
 		return
 	}
+	if s.foreign() {
+		s.ForeignEvents++
+		return
+	}
 	s.Events++
+	if s.freeRun != 0 {
+		return
+	}
 	h := s.Trace
 	h = (h ^ uint64(s.cur+1)) * 1099511628211
 	h = (h ^ uint64(kind)) * 1099511628211
@@ -177,7 +211,7 @@ func (s *Sched) Yield(kind int, arg uint64) {
 		return
 	}
 	s.note(kind, arg)
-	if !s.active || s.hold > 0 {
+	if !s.active || s.hold > 0 || s.freeRun != 0 || s.foreign() {
 		return
 	}
 	s.Yields++
@@ -195,12 +229,16 @@ func (s *Sched) Yield(kind int, arg uint64) {
 	s.cur = to
 	s.batons[to].wake()
 	s.batons[from].park()
+	// (in free-running mode the monitor woke us; nothing more to do)
 }
 
 //go:norace
 func (s *Sched) finish(id int) {
 	s.note(evTaskEnd, 0)
 	s.done[id] = true
+	if s.freeRun != 0 {
+		return
+	}
 	to := s.pick(true)
 	if to < 0 {
 		s.cur = -1
@@ -251,6 +289,7 @@ func (s *Sched) Run(bodies []func(task int), timeout time.Duration) *HangInfo {
 		wg.Add(1)
 		go func(id int) {
 			defer wg.Done()
+			s.setG(id)
 			if id != 0 {
 				s.batons[id].park()
 			}
@@ -260,21 +299,93 @@ func (s *Sched) Run(bodies []func(task int), timeout time.Duration) *HangInfo {
 	}
 	doneCh := make(chan struct{})
 	go func() { wg.Wait(); close(doneCh) }()
-	select {
-	case <-doneCh:
-		s.stop()
-		for i := range bodies {
-			s.batons[i].close()
+	// Monitor. The baton scheduler parks tasks at yield points; it refuses to do
+	// so while a lock it can see (WatchMutexes) is held, but ice may hold a lock
+	// it cannot see (a package-level lock, a lock in an object created later, a
+	// channel used as a semaphore). Then the running task can block on a lock
+	// whose holder the scheduler itself has parked - not a deadlock of ice. So
+	// when no seam event has happened for a while and a goroutine is blocked
+	// inside ice while tasks are parked, scheduling is abandoned for the rest of
+	// this run: every parked task is released and all run freely. The oracles
+	// compare with solo results and do not depend on the schedule. Only if the
+	// run still does not finish is it a hang.
+	tick := time.NewTicker(100 * time.Millisecond)
+	defer tick.Stop()
+	deadline := time.Now().Add(timeout)
+	lastEv, quiet := -1, 0
+	for {
+		select {
+		case <-doneCh:
+			s.stop()
+			for i := range bodies {
+				s.batons[i].close()
+			}
+			return nil
+		case <-tick.C:
 		}
-		return nil
-	case <-time.After(timeout):
+		if ev := s.eventsRacy(); ev != lastEv {
+			// progress: the bound is on time WITHOUT a seam event, so that a loaded
+			// machine (or a slower but correct implementation) is never mistaken
+			// for a hang; the shard's stall watchdog bounds the whole case
+			lastEv, quiet = ev, 0
+			deadline = time.Now().Add(timeout)
+		} else {
+			quiet++
+		}
+		if quiet >= 3 && s.freeRun == 0 && len(bodies) > 1 {
+			if parked := s.parkedTasks(); len(parked) > 0 && blockedInIce(allStacks()) {
+				s.enterFreeRun(parked)
+				quiet = 0
+				deadline = time.Now().Add(timeout)
+			}
+		}
+		if time.Now().After(deadline) {
+			break
+		}
 	}
-	buf := make([]byte, 1<<20)
-	buf = buf[:runtime.Stack(buf, true)]
-	return &HangInfo{MutexBlocked: mutexBlockedInIce(string(buf)), Dump: trimDump(string(buf))}
+	d := allStacks()
+	return &HangInfo{MutexBlocked: blockedInIce(d), Dump: trimDump(d)}
 }
 
-func mutexBlockedInIce(dump string) bool {
+func allStacks() string {
+	buf := make([]byte, 4<<20)
+	return string(buf[:runtime.Stack(buf, true)])
+}
+
+//go:norace
+func (s *Sched) eventsRacy() int { return s.Events + s.ForeignEvents }
+
+//go:norace
+func (s *Sched) setG(id int) { s.gs[id] = getg() }
+
+// parkedTasks: the tasks that are neither finished nor the baton holder. Only
+// called by the monitor while the baton holder is blocked (nothing else
+// touches the scheduler state then).
+//
+//go:norace
+func (s *Sched) parkedTasks() []int {
+	var out []int
+	for i := 0; i < s.n; i++ {
+		if !s.done[i] && i != s.cur {
+			out = append(out, i)
+		}
+	}
+	return out
+}
+
+//go:norace
+func (s *Sched) enterFreeRun(parked []int) {
+	s.freeRun = 1
+	s.FreeRuns++
+	for _, i := range parked {
+		s.batons[i].wake()
+	}
+}
+
+// blockedInIce: some goroutine is blocked on a lock, semaphore, condition or
+// channel with an ice frame on its stack - and not merely parked by this
+// scheduler at a yield point (which also sits below ice frames).
+func blockedInIce(dump string) bool {
 	for _, g := range strings.Split(dump, "\n\n") {
 		head := g
 		if i := strings.IndexByte(g, '\n'); i >= 0 {
@@ -288,6 +399,12 @@ func mutexBlockedInIce(dump string) bool {
 		}
 		// a goroutine blocked on a lock, semaphore, condition or channel with an
 		// ice frame on its stack: ice is waiting for something nobody will provide
+		if strings.Contains(g, "icesim/sim.baton.park") || strings.Contains(g, "icesim/sim.(*Sched).Yield") {
+			continue
+		}
+		if blocked && selfTestAnyBlocked && strings.Contains(g, "SelfTestSchedFallbacks") {
+			return true
+		}
 		if blocked && strings.Contains(g, "github.com/blugelabs/ice/v2.") {
 			return true
 		}
@@ -304,45 +421,188 @@ func trimDump(d string) string {
 
 // ---- mutex peeking ------------------------------------------------------------
 
-// mutexWords returns pointers to the state word of every sync.Mutex that is a
-// direct field of the struct seg points to.
-func mutexWords(seg interface{}) []*int32 {
+// lockWord points at the state of one lock: the state word of a sync.Mutex
+// (bit 0: locked) or, for a sync.RWMutex, the state word of its writer mutex
+// plus its reader count (non-zero: readers inside or a writer pending).
+type lockWord struct {
+	state   *int32
+	readers *int32
+}
+
+var (
+	mutexType   = reflect.TypeOf(sync.Mutex{})
+	rwMutexType = reflect.TypeOf(sync.RWMutex{})
+)
+
+// mutexWords returns the state of every sync.Mutex and sync.RWMutex reachable
+// from the struct seg points to through struct fields and pointer fields (two
+// pointer hops at most; maps, slices and interfaces are not followed).
+func mutexWords(seg interface{}) []lockWord {
 	v := reflect.ValueOf(seg)
-	if v.Kind() != reflect.Ptr || v.Elem().Kind() != reflect.Struct {
+	if v.Kind() != reflect.Ptr || v.IsNil() || v.Elem().Kind() != reflect.Struct {
 		return nil
 	}
-	e := v.Elem()
-	var out []*int32
-	mt := reflect.TypeOf(sync.Mutex{})
-	for i := 0; i < e.NumField(); i++ {
-		if e.Type().Field(i).Type == mt {
-			out = append(out, (*int32)(unsafe.Pointer(e.Field(i).UnsafeAddr())))
-		}
-	}
+	var out []lockWord
+	seen := map[uintptr]bool{}
+	collectLocks(v.Elem(), 2, seen, &out)
 	return out
 }
 
-// SelfTestMutexPeek verifies that the state word peek sees Lock/Unlock.
+func collectLocks(e reflect.Value, hops int, seen map[uintptr]bool, out *[]lockWord) {
+	if !e.CanAddr() {
+		return
+	}
+	switch e.Type() {
+	case mutexType:
+		*out = append(*out, lockWord{state: (*int32)(unsafe.Pointer(e.UnsafeAddr()))})
+		return
+	case rwMutexType:
+		wf, ok1 := rwMutexType.FieldByName("w")
+		rf, ok2 := rwMutexType.FieldByName("readerCount")
+		if !ok1 || !ok2 || wf.Type != mutexType || rf.Type.Size() != 4 {
+			return
+		}
+		base := unsafe.Pointer(e.UnsafeAddr())
+		*out = append(*out, lockWord{state: (*int32)(unsafe.Add(base, wf.Offset)), readers: (*int32)(unsafe.Add(base, rf.Offset))})
+		return
+	}
+	if e.Kind() != reflect.Struct {
+		return
+	}
+	for i := 0; i < e.NumField(); i++ {
+		f := e.Field(i)
+		switch f.Kind() {
+		case reflect.Struct:
+			collectLocks(f, hops, seen, out)
+		case reflect.Ptr:
+			if hops == 0 || f.IsNil() || f.Elem().Kind() != reflect.Struct {
+				continue
+			}
+			// unexported pointer fields cannot be dereferenced through reflect's
+			// safe API; rebuild the pointer from its address
+			pp := *(*unsafe.Pointer)(unsafe.Pointer(f.UnsafeAddr()))
+			if pp == nil || seen[uintptr(pp)] {
+				continue
+			}
+			seen[uintptr(pp)] = true
+			collectLocks(reflect.NewAt(f.Type().Elem(), pp).Elem(), hops-1, seen, out)
+		}
+	}
+}
+
+// SelfTestMutexPeek verifies that the state word peek sees Lock/Unlock of
+// direct, nested and pointed-to mutexes and of read/write locks.
 func SelfTestMutexPeek() error {
+	type inner struct {
+		x  int
+		rw sync.RWMutex
+	}
 	type holder struct {
-		a int
-		m sync.Mutex
+		a  int
+		m  sync.Mutex
+		in inner
+		p  *inner
+		q  *sync.Mutex
 	}
-	h := &holder{}
+	h := &holder{p: &inner{}, q: &sync.Mutex{}}
 	w := mutexWords(h)
-	if len(w) != 1 {
-		return fmt.Errorf("mutex peek: found %d mutex fields, want 1", len(w))
+	if len(w) != 4 {
+		return fmt.Errorf("lock peek: found %d locks, want 4", len(w))
 	}
-	if *w[0]&1 != 0 {
-		return fmt.Errorf("mutex peek: fresh mutex reads locked")
+	s := &Sched{mutexes: w}
+	steps := []struct {
+		name         string
+		lock, unlock func()
+	}{
+		{"Mutex", h.m.Lock, h.m.Unlock},
+		{"nested RWMutex.Lock", h.in.rw.Lock, h.in.rw.Unlock},
+		{"nested RWMutex.RLock", h.in.rw.RLock, h.in.rw.RUnlock},
+		{"pointed-to RWMutex.Lock", h.p.rw.Lock, h.p.rw.Unlock},
+		{"pointed-to RWMutex.RLock", h.p.rw.RLock, h.p.rw.RUnlock},
+		{"*Mutex", h.q.Lock, h.q.Unlock},
 	}
-	h.m.Lock()
-	if *w[0]&1 != 1 {
-		return fmt.Errorf("mutex peek: locked mutex reads unlocked")
-	}
-	h.m.Unlock()
-	if *w[0]&1 != 0 {
-		return fmt.Errorf("mutex peek: unlocked mutex reads locked")
+	for _, st := range steps {
+		if s.anyLocked() {
+			return fmt.Errorf("lock peek: %s: free lock reads held", st.name)
+		}
+		st.lock()
+		if !s.anyLocked() {
+			return fmt.Errorf("lock peek: %s: held lock reads free", st.name)
+		}
+		st.unlock()
+		if s.anyLocked() {
+			return fmt.Errorf("lock peek: %s: released lock reads held", st.name)
+		}
 	}
 	return nil
 }
+
+// SelfTestSchedFallbacks exercises the two situations in which the scheduler
+// steps back instead of misjudging: a lock it cannot see held across a yield
+// point (free running), and seam events reached by goroutines that are not
+// tasks.
+func SelfTestSchedFallbacks() error {
+	if runtime.GOARCH == "amd64" {
+		g0 := getg()
+		ch := make(chan uintptr)
+		go func() { ch <- getg() }()
+		if g1 := <-ch; g0 == 0 || g1 == 0 || g0 == g1 || g0 != getg() {
+			return fmt.Errorf("goroutine identity: %x %x %x", g0, g1, getg())
+		}
+	}
+	// (1) hidden lock held across a yield point; the plan switches at the first yield
+	var hidden sync.Mutex
+	s := NewSched([]int{1, 1, 1, 1})
+	var order []int
+	var omu sync.Mutex
+	body := func(id int) {
+		hidden.Lock()
+		s.Yield(evRead, 1)
+		hidden.Unlock()
+		omu.Lock()
+		order = append(order, id)
+		omu.Unlock()
+		s.Yield(evRead, 2)
+	}
+	// blockedInIce looks for ice frames; emulate one by running the bodies below a
+	// function of that package path is not possible here, so accept any blocked
+	// goroutine for the self-test
+	selfTestAnyBlocked = true
+	h := s.Run([]func(int){body, body}, 10*time.Second)
+	selfTestAnyBlocked = false
+	if h != nil {
+		return fmt.Errorf("free-run fallback: run hung\n%s", h.Dump)
+	}
+	if s.FreeRuns != 1 || len(order) != 2 {
+		return fmt.Errorf("free-run fallback: FreeRuns=%d order=%v", s.FreeRuns, order)
+	}
+	// (2) a foreign goroutine reaching yield points while its task waits for it
+	s = NewSched([]int{1, 1, 1, 1, 1, 1})
+	var sums [3]int
+	body2 := func(id int) {
+		var wg sync.WaitGroup
+		for k := 0; k < 2; k++ {
+			wg.Add(1)
+			go func() {
+				defer wg.Done()
+				for i := 0; i < 50; i++ {
+					s.Yield(evRead, uint64(i))
+				}
+			}()
+		}
+		wg.Wait()
+		s.Yield(evRead, 99)
+		sums[id] = id + 1
+		s.Yield(evRead, 100)
+	}
+	if h := s.Run([]func(int){body2, body2, body2}, 10*time.Second); h != nil {
+		return fmt.Errorf("foreign goroutines: run hung\n%s", h.Dump)
+	}
+	sum := sums[0] + sums[1] + sums[2]
+	if sum != 6 || s.ForeignEvents == 0 || s.ForeignEvents > 300 || s.Switches == 0 { // (the foreign counter is deliberately unsynchronised)
+		return fmt.Errorf("foreign goroutines: sum=%d foreign=%d switches=%d", sum, s.ForeignEvents, s.Switches)
+	}
+	return nil
+}
+
+var selfTestAnyBlocked bool
